@@ -38,8 +38,8 @@ type PathEnum struct {
 type PathState struct {
 	Env    map[ssa.Value]int64
 	Events []string
-	Taken  []Cond // branch outcomes in order
-	Alias  map[ssa.Value]ssa.Value // phi -> the value that flowed in on this path
+	Taken  []Cond                   // branch outcomes in order
+	Alias  map[ssa.Value]ssa.Value  // phi -> the value that flowed in on this path
 	Mem    map[*ssa.Alloc]ssa.Value // last value stored into a non-escaping local cell on this path
 	visits map[*ssa.BasicBlock]int
 	sigs   map[string]int
